@@ -56,7 +56,7 @@ def run_property(pid, tier, seed=0, only=None, quiet=False):
             "properties_expanded": sorted({f"{r}:{c}.{f}" for r, c, f, n in repo.expanded_properties}),
             "properties_synthesised": sorted({f"{r}:{c}.{f}" for r, c, f in repo.synthesised_properties})}
         if chk.tainted:
-            chk.extra["tainted_functions"] = {k: [f"line {l}: {t}" for l, t in v] for k, v in chk.tainted.items()}
+            chk.extra["tainted_functions"] = {k: [f"line {w[0]}: {w[1]}" for w in v] for k, v in chk.tainted.items()}
         if tier == "thorough" and ctx.model.used_generators():
             # second cover of the state space: one generator run per boundary cell of the configuration
             # (every finite-domain attribute split, integer attributes split at lowest / lowest+1 / rest).
